@@ -179,9 +179,10 @@ def run_check(prop, tier, seed, scratch, t0, args):
         if matched:
             print("KNOWN-FINDING: property=%s %s" % (prop, key))
             continue
-        os.makedirs(os.path.join(VERIF, "replays"), exist_ok=True)
+        rdir = os.environ.get("VERIF_REPLAY_DIR") or os.path.join(VERIF, "replays")
+        os.makedirs(rdir, exist_ok=True)
         hsh = hashlib.sha1(json.dumps(info, sort_keys=True, default=str).encode()).hexdigest()[:10]
-        path = os.path.join(VERIF, "replays", "%s-%s.json" % (prop, hsh))
+        path = os.path.join(rdir, "%s-%s.json" % (prop, hsh))
         json.dump(info, open(path, "w"), indent=1, default=str)
         print("VIOLATION property=%s replay=%s" % (prop, path))
         print("  harness %s: %s" % (name, "; ".join(f[1] for f in r.failed[:3])))
@@ -275,8 +276,9 @@ def write_evidence(prop, tier, seed, ws, results, meta, violations, inconclusive
     if LEVEL[prop] == "translation_validation":
         cov["programs"] = len(seen_auto)
         cov["disagreements_checked"] = traces_validated
-    os.makedirs(os.path.join(VERIF, "evidence"), exist_ok=True)
-    json.dump(ev, open(os.path.join(VERIF, "evidence", prop + ".json"), "w"), indent=1, default=str)
+    evdir = os.environ.get("VERIF_EVIDENCE_DIR") or os.path.join(VERIF, "evidence")
+    os.makedirs(evdir, exist_ok=True)
+    json.dump(ev, open(os.path.join(evdir, prop + ".json"), "w"), indent=1, default=str)
 
 
 if __name__ == "__main__":
